@@ -137,3 +137,133 @@ def rule_argument_binding(ctx, rule, prefixes, label, minimum=40):
             '%d resolved call sites of library functions, %d named arguments: none is bound to a parameter other '
             'than the one it is named after' % (len(sites), n_pos) if not bad else
             '%d call sites bind a value to a differently named parameter' % len(bad))
+
+
+# ------------------------------------------------------------------------------------------------ ignored arguments
+def _is_log_call(call):
+    t = ast.unparse(call.func)
+    return t.startswith('logger()') or t.startswith('logging.') or t.startswith('log_')
+
+
+def _used_names(fn):
+    """names read in the body outside logging calls"""
+    used = set()
+
+    class V(ast.NodeVisitor):
+        def __init__(self):
+            self.inlog = 0
+
+        def visit_Call(self, n):
+            if _is_log_call(n):
+                self.inlog += 1
+                self.generic_visit(n)
+                self.inlog -= 1
+            else:
+                self.generic_visit(n)
+
+        def visit_Name(self, n):
+            if isinstance(n.ctx, ast.Load) and not self.inlog:
+                used.add(n.id)
+
+    v = V()
+    for st in fn.node.body:
+        v.visit(st)
+    return used
+
+
+def _trivial(fn):
+    if any('abstractmethod' in ast.unparse(d) for d in fn.node.decorator_list):
+        return True
+    stmts = [st for st in fn.node.body if not (isinstance(st, ast.Expr) and (
+        isinstance(st.value, ast.Constant) or isinstance(st.value, ast.Call) and _is_log_call(st.value) or
+        not any(isinstance(x, (ast.Name, ast.Attribute)) and not (isinstance(x, ast.Name) and x.id == 'len')
+                for x in ast.walk(st.value))))]
+    return not stmts or all(isinstance(st, (ast.Pass, ast.Raise)) for st in stmts)
+
+
+def _method_families(repo, prefixes):
+    """method name -> [FuncInfo] for methods defined in library classes"""
+    fam = {}
+    for k in repo.all_classes():
+        if not any(k.qualname.startswith(p) for p in prefixes):
+            continue
+        for name, m in k.methods.items():
+            fam.setdefault(name, []).append(m)
+    return fam
+
+
+def rule_no_ignored_argument(ctx, rule, prefixes, label, minimum=400):
+    """A value a library call site passes is used by the function that receives it (outside log lines).  Methods
+    called on a receiver of unknown class are resolved by name when every library definition of that name has the same
+    parameter list; a parameter counts as ignored only when every non-trivial definition ignores it.  The frame
+    logger's functions are exempt (their purpose is the log line)."""
+    rep = ctx.report
+    repo = ctx.repo
+    fam = _method_families(repo, prefixes)
+    sites = list(binding_sites(repo, prefixes))
+    resolved = {(id(c)) for _, c, _, _, _ in sites}
+    # loose resolution of obj.method(...) by name
+    loose = []
+    for fn in repo.all_functions():
+        if not any(fn.qualname.startswith(p) for p in prefixes):
+            continue
+        for n in walk_local(fn.node):
+            if not isinstance(n, ast.Call) or id(n) in resolved or not isinstance(n.func, ast.Attribute):
+                continue
+            if any(isinstance(a, ast.Starred) for a in n.args) or any(k.arg is None for k in n.keywords):
+                continue
+            defs = fam.get(n.func.attr)
+            if not defs:
+                continue
+            sigs = {tuple(a.arg for a in d.node.args.args) for d in defs}
+            if len(sigs) != 1:
+                continue
+            names = list(next(iter(sigs)))[1:]
+            if len(n.args) > len(names):
+                continue
+            bound = dict(zip(names, n.args))
+            for k in n.keywords:
+                if k.arg in names:
+                    bound[k.arg] = k.value
+            loose.append((fn, n, defs, bound))
+    checked = 0
+    seen = set()
+    bad = []
+    for fn, call, g, bound, names in sites:
+        impls = [g]
+        if g.cls is not None and g.node.name in fam:
+            impls = [d for d in fam[g.node.name] if d.cls is not None and (d.cls.is_subclass_of(g.cls) or
+                                                                            g.cls.is_subclass_of(d.cls))] or [g]
+        loose.append((fn, call, impls, bound))
+    for fn, call, impls, bound in loose:
+        real = [d for d in impls if not _trivial(d) and not d.qualname.startswith('rsocket.frame_logger')]
+        if not real:
+            continue
+        # a parameter declared by an abstract method of an interface applications implement is part of that
+        # contract whether or not the library's own implementations need it
+        declared = [d for d in impls if _trivial(d)]
+        if not declared and real[0].cls is not None:
+            declared = [k.methods[real[0].node.name] for k in real[0].cls.mro()[1:]
+                        if real[0].node.name in k.methods and _trivial(k.methods[real[0].node.name])]
+        interface_params = {a.arg for d in declared for a in d.node.args.args}
+        used = [(d, _used_names(d)) for d in real]
+        for p, arg in bound.items():
+            checked += 1
+            if any(p in u for _, u in used):
+                continue
+            if p in interface_params:
+                continue
+            key = (real[0].qualname, p)
+            if key in seen:
+                continue
+            seen.add(key)
+            bad.append((fn, call, real[0], p, ast.unparse(arg)))
+    if checked < minimum:
+        raise AnalysisError('%s: only %d bound arguments examined in %s' % (rule, checked, label))
+    for fn, call, g, p, text in bad:
+        rep.bad(rule, '%s / parameter %s receives a value and ignores it' % (g.short, p), g,
+                '%s passes %s (line %d) but %s never reads %s: what the caller says no longer influences the callee' % (
+                    fn.short, text, call.lineno, g.short, p))
+    rep.add(rule, '%s / every argument passed is read by the function that receives it' % label, None, not bad,
+            '%d bound arguments at library call sites: each parameter that receives one is read outside log lines' %
+            checked if not bad else '%d parameters receive a value that is ignored' % len(bad))
